@@ -566,6 +566,25 @@ def step (s : Sys) (o : Op) : Sys × Res :=
   | true, _ => (s, .dead)
   | false, _ => stepLive c s o
 
+/-! ### the reactor (evidence/reactor.go) -/
+
+/-- `ReceiveEnvelope` after a successful `evidenceListFromProto` (decoding + `ValidateBasic` of every
+item): the items go through `AddEvidence` one by one; the first `ErrInvalidEvidence` stops the peer
+and the rest of the message is dropped. `true` = `StopPeerForError` -/
+def receive (s : Sys) : List Ev → Sys × Bool
+  | [] => (s, false)
+  | e :: rest =>
+    match step c s (.add e) with
+    | (s', .invalid _) => (s', true)
+    | (s', _) => receive s' rest
+
+/-- `prepareEvidenceMessage`: evidence is sent to a peer whose height is above the evidence's and
+for which it is not older than `MaxAgeNumBlocks` -/
+def prepare (st : State) (e : Ev) (peerHeight : Int) : Bool :=
+  if peerHeight ≤ e.height then false
+  else if peerHeight - e.height > st.maxAgeBlocks then false
+  else true
+
 def initSys (h0 : Int) : Sys := { storeH := h0, pool := newPool c (stateAt c h0) [] [] }
 
 def run (s : Sys) : List Op → Sys
